@@ -3,8 +3,10 @@ package prog
 import (
 	"encoding/json"
 	"fmt"
+	"math"
 	"regexp"
 	"sort"
+	"strconv"
 	"strings"
 )
 
@@ -62,6 +64,8 @@ func (p *Program) TypeExpr(id int) string {
 		return "func(n int) int"
 	case KAnon:
 		return "struct{ V uint64 }"
+	case KF64:
+		return "float64"
 	case KTwinA:
 		return "ma.U"
 	case KTwinB:
@@ -206,6 +210,8 @@ func (p *Program) typeDecls(b *strings.Builder) {
 			fmt.Fprintf(b, "func mkT%d(v uint64) interface{} {\n\tif v == 0 {\n\t\treturn nil\n\t}\n\treturn v\n}\nfunc unT%d(x any) uint64 {\n\tv, _ := x.(uint64)\n\treturn v\n}\n\n", id, id)
 		case KFuncT:
 			fmt.Fprintf(b, "func mkT%d(v uint64) func(n int) int {\n\tif v == 0 {\n\t\treturn nil\n\t}\n\treturn func(n int) int { return int(v) + n }\n}\nfunc unT%d(x func(int) int) uint64 {\n\tif x == nil {\n\t\treturn 0\n\t}\n\treturn uint64(x(0))\n}\n\n", id, id)
+		case KF64:
+			fmt.Fprintf(b, "func mkT%d(v uint64) float64 { return math.Float64frombits(v) }\nfunc unT%d(x float64) uint64 { return math.Float64bits(x) }\n\n", id, id)
 		case KTwinA, KTwinB:
 			fmt.Fprintf(b, "func mkT%d(v uint64) %s { return %s{V: v} }\nfunc unT%d(x %s) uint64 { return x.V }\n\n", id, te, te, id, te)
 		case KAlias:
@@ -824,7 +830,11 @@ func (pr *printer) source() string {
 		b.WriteString("//go:build cff\n\n")
 	}
 	fmt.Fprintf(&b, "package %s\n\n", p.Name)
-	b.WriteString("import (\n\t\"context\"\n\n\t\"go.uber.org/cff\"\n")
+	b.WriteString("import (\n\t\"context\"\n")
+	if p.hasKind(KF64) {
+		b.WriteString("\t\"math\"\n")
+	}
+	b.WriteString("\n\t\"go.uber.org/cff\"\n")
 	if pr.helper.Len() > 0 {
 		al := func(n string) string {
 			if p.AliasImports {
@@ -938,6 +948,11 @@ func (pr *printer) taskOpt(t *Task) string {
 		tos = append(tos, to{rk(1), func() string {
 			var a []string
 			for i, o := range t.Fn.Outs {
+				if pr.p.Types[o] == KF64 {
+					// a constant, written out with all the digits it needs
+					a = append(a, strconv.FormatFloat(math.Float64frombits(ConstFBTok(pr.p.Name, t.Fn.ID, i)), 'g', -1, 64))
+					continue
+				}
 				a = append(a, pr.wp(fmt.Sprintf("mkT%d(x.FB(%d, %d))", o, t.Fn.ID, i), fmt.Sprintf("mkT%d(x.Poison(%d))", o, pr.site)))
 			}
 			return "cff.FallbackWith(" + strings.Join(a, ", ") + ")"
